@@ -1,5 +1,6 @@
 import CssVerif.Lemmas.Ns
 import CssVerif.Lemmas.NsShare
+import CssVerif.Lemmas.NsCalls
 /-!
 # C15 — namespace declarations and namespaced selectors stay consistent
 
@@ -614,6 +615,106 @@ example :
     [.ns (mkNs [] W.d), .ns (mkNs W.p W.u1),
       .media [[[.q .typeSel (.uri W.d) W.b], [.q .typeSel (.uri W.u1) W.a]]]] := by
   decide
+
+/-! ## T15.3 at the level of the calls of `New.append`: comments (fix 3495bab, `Model/NsCalls.lean`) -/
+
+/-- on a selector without comments the call-by-call model (prefix saved in `_PREFIX`, combined with the next name)
+resolves exactly as the item-level model does -/
+theorem calls_agree_with_items (d : Dict) (sel : SSel) :
+    runCalls d none (callsOf sel) =
+      match resolveSel d sel with
+      | .ok x => .ok (x.map .item)
+      | .error e => .error e := by
+  induction sel with
+  | nil => rfl
+  | cons i t ih =>
+    have e : callsOf (i :: t) = callsOfItem i ++ callsOf t := by simp [callsOf]
+    rw [e, runCalls_append_item, ih]
+    simp only [resolveSel]
+    cases resolveItem d i with
+    | error e => rfl
+    | ok x =>
+      simp only
+      cases resolveSel d t with
+      | error e => rfl
+      | ok xs => rfl
+
+/-- comments are transparent: wherever comments are placed among the calls — between a prefix and its name in
+particular — what is appended apart from the comments, and whether the selector is accepted, is what the same calls
+without the comments give. For every mapping, every saved prefix, every call sequence. -/
+theorem comments_transparent (d : Dict) (calls : List Call) : ∀ (st : Option PfxSpec),
+    (match runCalls d st calls with
+      | .ok ys => Except.ok (ys.filter fun y => !y.isComment)
+      | .error e => .error e) = runCalls d st (calls.filter fun c => !c.isComment) := by
+  induction calls with
+  | nil => intro st; rfl
+  | cons c t ih =>
+    intro st
+    cases c with
+    | comment x =>
+      have hf : (Call.comment x :: t).filter (fun c => !c.isComment) = t.filter (fun c => !c.isComment) :=
+        List.filter_cons_of_neg (by simp [Call.isComment])
+      rw [hf, ← ih st]
+      simp only [runCalls, appendCall]
+      cases runCalls d st t with
+      | error e => rfl
+      | ok ys => simp [Emit.isComment]
+    | pfx p =>
+      have hf : (Call.pfx p :: t).filter (fun c => !c.isComment) = Call.pfx p :: t.filter (fun c => !c.isComment) :=
+        List.filter_cons_of_pos (by simp [Call.isComment])
+      rw [hf]
+      simp only [runCalls, appendCall]
+      rw [← ih (some p)]
+      cases runCalls d (some p) t with
+      | error e => rfl
+      | ok ys => simp
+    | name k n =>
+      have hf : (Call.name k n :: t).filter (fun c => !c.isComment) =
+          Call.name k n :: t.filter (fun c => !c.isComment) :=
+        List.filter_cons_of_pos (by simp [Call.isComment])
+      rw [hf]
+      simp only [runCalls, appendCall]
+      cases resolveItem d (.q k (st.getD .noPfx) n) with
+      | error e => rfl
+      | ok x =>
+        simp only
+        rw [← ih none]
+        cases runCalls d none t with
+        | error e => rfl
+        | ok ys => simp [Emit.isComment]
+    | other v s' =>
+      have hf : (Call.other v s' :: t).filter (fun c => !c.isComment) =
+          Call.other v s' :: t.filter (fun c => !c.isComment) :=
+        List.filter_cons_of_pos (by simp [Call.isComment])
+      rw [hf]
+      simp only [runCalls, appendCall]
+      rw [← ih none]
+      cases runCalls d none t with
+      | error e => rfl
+      | ok ys => simp [Emit.isComment]
+    | bad =>
+      have hf : (Call.bad :: t).filter (fun c => !c.isComment) = Call.bad :: t.filter (fun c => !c.isComment) :=
+        List.filter_cons_of_pos (by simp [Call.isComment])
+      rw [hf]
+      simp [runCalls, appendCall]
+
+/-- … hence a selector written with comments anywhere between its parts denotes what it denotes without them:
+the names resolve to the same `(URI, name)` items -/
+theorem commented_selector_same_items (d : Dict) (sel : SSel) (calls : List Call)
+    (h : (calls.filter fun c => !c.isComment) = callsOf sel) :
+    (match runCalls d none calls with
+      | .ok ys => Except.ok (ys.filter fun (y : Emit) => !y.isComment)
+      | .error e => .error e) =
+    match resolveSel d sel with
+      | .ok x => .ok (x.map .item)
+      | .error e => .error e := by
+  rw [comments_transparent, h, calls_agree_with_items]
+
+/-- non-vacuity, and the former witness of C15-comment-after-prefix: `p|/**/a` with `p` bound to `u1` -/
+example :
+    runCalls [(W.p, W.u1)] none [.pfx (.named W.p), .comment [0x2F, 0x2A, 0x2A, 0x2F], .name .typeSel W.a] =
+      .ok [.comment [0x2F, 0x2A, 0x2A, 0x2F], .item (.q .typeSel (.uri W.u1) W.a)] := by
+  rfl
 
 /-! ## the serialised @namespace rules stay well-formed -/
 
